@@ -354,6 +354,12 @@ func renderTable(ct *extract.Claim, m crosschaintypes.ExternalClaim) []byte {
 			b.WriteString(decU(v.Uint()))
 		case "str":
 			b.WriteString(v.String())
+		case "hexstr":
+			const digits = "0123456789abcdef"
+			for _, ch := range []byte(v.String()) {
+				b.WriteByte(digits[ch>>4])
+				b.WriteByte(digits[ch&15])
+			}
 		case "int":
 			b.WriteString(decInt(v.Interface().(sdkmath.Int)))
 		case "bool":
@@ -442,9 +448,9 @@ func coqClaim(ct *extract.Claim, m crosschaintypes.ExternalClaim) string {
 			}
 			t = "VMembers " + lib.List(l)
 		}
-		items = append(items, fmt.Sprintf("(\"%s\"%%string, %s)", f.Name, t))
+		items = append(items, t)
 	}
-	return lib.List(items)
+	return "(zipc Gen_" + ct.Short + " " + lib.List(items) + ")"
 }
 
 // canon encodes the fields selected by keep (unambiguous, length-prefixed) for Go-side comparisons.
@@ -589,11 +595,14 @@ func main() {
 	tab, err := extract.Extract(repo)
 	if err != nil {
 		rep.Fail(lib.Failure{Kind: "tie", What: "translator cannot extract the ClaimHash table: " + err.Error(), Sig: "C03:extract"})
-		rep.Write()
-		return
+		if tab == nil {
+			rep.Write()
+			return
+		}
+		// the monitors below only need field lists / classes / read-sets: keep searching for a failing input
 	}
 
-	perType, pairBases, schedules := 110, 12, 24
+	perType, pairBases, schedules := 80, 8, 24
 	if lib.Tier() == "thorough" {
 		perType, pairBases, schedules = 900, 80, 150
 	}
@@ -607,6 +616,9 @@ func main() {
 	// ---------------- phase 1
 	var items []string
 	for _, ct := range tab.Claims {
+		if ct.Err != "" {
+			continue // no token table for this type: nothing to tie
+		}
 		for i := 0; i < perType; i++ {
 			g := &gen{r: r, chain: evmChains[r.Intn(len(evmChains))], big: r.Chance(12)}
 			if r.Chance(25) {
@@ -683,6 +695,21 @@ func main() {
 				}
 				pairs = append(pairs, pairT{ct: ct, a: base, b: v, kind: f.Name})
 			}
+			// integers that agree modulo 2^64 / 2^256 (a hash of a truncated amount would confuse them)
+			for _, f := range ct.Fields {
+				if f.Kind != "int" || extract.IsIrrelevant(f.Name) {
+					continue
+				}
+				cur := fieldOf(base, f.Name).Interface().(sdkmath.Int)
+				if cur.IsNil() || cur.IsNegative() {
+					continue
+				}
+				for _, sh := range []uint{64, 256} {
+					v := clone(ct, base)
+					fieldOf(v, f.Name).Set(reflect.ValueOf(sdkmath.NewIntFromBigInt(new(big.Int).Add(cur.BigInt(), new(big.Int).Lsh(big.NewInt(1), sh)))))
+					pairs = append(pairs, pairT{ct: ct, a: base, b: v, kind: fmt.Sprintf("%s+2^%d", f.Name, sh)})
+				}
+			}
 			// both lists of a bridge call grow together
 			if ct.Go == "MsgBridgeCallClaim" {
 				v := clone(ct, base)
@@ -717,6 +744,27 @@ func main() {
 					fieldOf(b, f1.Name).SetString(x)
 					fieldOf(b, f2.Name).SetString(y + sep + z)
 					pairs = append(pairs, pairT{ct: ct, a: a, b: b, kind: "split:" + f1.Name + "/" + f2.Name})
+				}
+			}
+			// two numbers printed back to back would make 1|23 and 12|3 collide
+			if i%3 == 0 {
+				var nums []extract.Field
+				for _, f := range ct.Fields {
+					if f.Kind == "u64" {
+						nums = append(nums, f)
+					}
+				}
+				for _, f1 := range nums {
+					for _, f2 := range nums {
+						if f1.Name != f2.Name {
+							a, b := clone(ct, base), clone(ct, base)
+							fieldOf(a, f1.Name).SetUint(1)
+							fieldOf(a, f2.Name).SetUint(23)
+							fieldOf(b, f1.Name).SetUint(12)
+							fieldOf(b, f2.Name).SetUint(3)
+							pairs = append(pairs, pairT{ct: ct, a: a, b: b, kind: "shift:" + f1.Name + "/" + f2.Name})
+						}
+					}
 				}
 			}
 			// digit shift between a number and the string that follows it, list boundary shifts (invalid claims; model tie)
@@ -761,8 +809,15 @@ func main() {
 		nontriv := p.valid && !sameRel
 		rep.Case("pair|"+p.ct.Go+"|"+p.kind+"|"+canon(p.ct, p.a, relevantOnly)+"|"+canon(p.ct, p.b, relevantOnly), nontriv)
 		rep.Count(fmt.Sprintf("phase2:valid=%v:collide=%v", p.valid, same))
-		pitems = append(pitems, fmt.Sprintf("mk_pair_case Gen_%s %s %s %s %s", p.ct.Short, coqClaim(p.ct, p.a), coqClaim(p.ct, p.b), lib.Bool(same), lib.Bool(sameRel)))
+		if p.ct.Err == "" {
+			pitems = append(pitems, fmt.Sprintf("mk_pair_case Gen_%s %s %s %s %s", p.ct.Short, coqClaim(p.ct, p.a), coqClaim(p.ct, p.b), lib.Bool(same), lib.Bool(sameRel)))
+		}
 		if !(p.valid && same && !sameRel) {
+			continue
+		}
+		if p.a.GetEventNonce() != p.b.GetEventNonce() {
+			// different event nonces are never tallied together (the attestation key is nonce || hash): not a violation
+			rep.Count("phase2:same-hash-different-nonce")
 			continue
 		}
 		// a collision between two ValidateBasic-valid claims that differ in a relevant field
